@@ -1,4 +1,5 @@
 import HeraProofs.Props.C02
+import HeraProofs.Props.C02b
 open Hera
 #print axioms C01_step
 #print axioms C02_fetch
@@ -10,3 +11,7 @@ open Hera
 #print axioms C02_init
 #print axioms C02_run_WF
 #print axioms C02_savef
+#print axioms C02_assign_mem_WF
+#print axioms C02_assign_pc
+#print axioms C02_assign_reg_WF
+#print axioms C02_assign_reg_negative
